@@ -499,6 +499,8 @@ PRECONDITIONS = [
     ("OverlayFs::do_mknod", "from_raw_os_error:EEXIST", [("Atomic::load(some(OverlayFs::lookup_node_ignore_enoent(", False)], "an existing name is refused exactly when it is not a whiteout"),
     ("OverlayFs::do_symlink", "from_raw_os_error:EEXIST", [("Atomic::load(some(OverlayFs::lookup_node_ignore_enoent(", False)], "an existing name is refused exactly when it is not a whiteout"),
     ("OverlayFs::do_link", "from_raw_os_error:EEXIST", [("Atomic::load(some(OverlayFs::lookup_node_ignore_enoent(", False)], "an existing name is refused exactly when it is not a whiteout"),
+    ("OverlayInode::scan_childrens", "readdir", [("utils::is_dir(OverlayInode::stat64(self, ctx)?)", True)], "only a directory has children to scan"),
+    ("OverlayFs::empty_node_directory", "empty_node_directory", [("utils::is_dir(OverlayInode::stat64(node, ctx)?)", True)], "sub-directories in the upper layer are emptied recursively before they are removed"),
     ("OverlayFs::do_rm", "load_directory", [("dir", True)], "a directory's children are loaded before its emptiness is judged"),
     ("OverlayFs::do_rm", "count_entries_and_whiteout", [("dir", True)], "emptiness is judged for directories"),
     ("OverlayFs::do_link", "copy_node_up", [("Atomic::load(src_node.whiteout, Relaxed)", False), ("Atomic::load(new_parent.whiteout, Relaxed)", False), ("utils::is_dir(OverlayInode::stat64(src_node, ctx)?)", False)],
@@ -568,6 +570,17 @@ def r6_live_tree(ctx, F):
             ctx.check(rule, "%s/%s" % (nm, call), bool(cs) and not skipped and args_ok,
                       "%s: the node created in the upper layer must be entered with %s(%s) on every path after its creation (calls: %s; a return is reachable without it: %s)"
                       % (nm, call, ", ".join(want)[:80], [[R(x, b, v)[:40] for x in v.call_args(c)[1:]] for c in cs], bool(skipped)), loc=b.loc())
+    # a node that gains an upper copy takes over that copy's whiteout state (a directory made over a whiteout is alive again)
+    au = F.method(OIN, "add_upper_inode")
+    ctx.fn_seen(au)
+    av = vf.VF(au, inline_depth=0)
+    st = [c for c in live_calls(au) if c.name == "store"]
+    ok = len(st) == 1 and [R(x, au, av) for x in av.call_args(st[0])][:2] == ["self.whiteout", "ri.whiteout"] and not [1 for (x, l, u) in av.guards(st[0].bb) if not R(x, au, av).startswith("discr(")]
+    ctx.check(rule, "add_upper_inode/takes-whiteout-state", ok, "OverlayInode::add_upper_inode must set the node's whiteout flag from the new upper inode, unconditionally", loc=au.loc())
+    ex = [c for c in live_calls(au) if c.name == "extend"]
+    gl = [[(R(x, au, av), l) for (x, l, u) in av.guards(c.bb) if not R(x, au, av).startswith("discr(")] for c in ex]
+    ctx.check(rule, "add_upper_inode/keeps-lowers-unless-asked", sorted(map(str, gl)) == sorted(map(str, [[("clear_lowers", 0)], []])),
+              "OverlayInode::add_upper_inode must put the new inode first and keep the lower ones exactly when clear_lowers is false (extends under %s)" % gl, loc=au.loc())
     b = F.method(OFS, "do_rm")
     v = vf.VF(b, inline_depth=0)
     node = 'OverlayFs::lookup_node(self, ctx, parent, String::as_str(T::to_string(CStr::to_string_lossy(name))))?'
@@ -681,6 +694,13 @@ def r4_markers(ctx, F):
         if hit and not wrong:
             oke = True
     ctx.check(rule, "opaque/reader-absent-attribute", oke, "Layer::is_opaque must read a missing attribute (ENODATA) as `not opaque` and pass every other error on", loc=b.loc())
+    okx = False
+    for cl in cls:
+        cv = vf.VF(cl, inline_depth=0)
+        for a_ in R(cv.ret(), cl, cv).split(" | "):
+            if a_.rstrip("}").endswith("=> Ok(1)") and "Eq(1, Vec::len(" in a_ and "impl u8::eq_ignore_ascii_case(" in a_ and ", 121)" in a_ and "Ne(1, Vec::len(" not in a_:
+                okx = True
+    ctx.check(rule, "opaque/reader-value-exact", okx, "Layer::is_opaque must answer `opaque` exactly for a one-byte value equal to y/Y (length == 1 and the byte compares equal)", loc=b.loc())
     ctx.check(rule, "opaque/reader-value", okv, "Layer::is_opaque must accept exactly the one-byte value y/Y", loc=b.loc())
     # constants
     for (nm, val) in (("OPAQUE_XATTR", b"user.fuseoverlayfs.opaque"), ("PRIVILEGED_OPAQUE_XATTR", b"trusted.overlay.opaque"), ("UNPRIVILEGED_OPAQUE_XATTR", b"user.overlay.opaque")):
